@@ -44,6 +44,9 @@ func c05Worlds(tier string) []explore.Case {
 	} else {
 		picks = append(picks, pick{"S:wide-14", 1, ""})
 	}
+	// a dependent body whose nested block has extensions of its own, under DynamicBlocks; the same
+	// nested block schema is reachable from a second block type
+	picks = append(picks, pick{"S:dep-nested-ext", 0, ""})
 	var out []explore.Case
 	for _, p := range picks {
 		e := find(p.id)
